@@ -340,3 +340,87 @@ Qed.
 Theorem op_add_fast_eq f i m : rinput_ok i = true ->
   op_add_fast f i m = op_add f (denote_input i) m.
 Proof. intros Hok. rewrite op_add_fast_nofast. apply op_add_nofast_eq. exact Hok. Qed.
+
+(* ---------------------------------------------------------------- op_subtract *)
+Lemma sub_loop_r_eq ncm pa pb t m : forall l, forallb rarg_ok l = true ->
+  forall cost acc fst,
+  sub_loop_r ncm pa pb l cost acc fst m = sub_loop ncm pa pb (denote_input (l, t)) cost acc fst m.
+Proof.
+  induction l as [|a l IH]; intros Hok cost acc fst.
+  - rewrite denote_input_nil. destruct (denote_term_atom t) as [tb ->]. reflexivity.
+  - rewrite forallb_cons in Hok. apply andb_prop in Hok. destruct Hok as [Ha Hl].
+    rewrite denote_input_cons. cbn [sub_loop_r sub_loop].
+    destruct (check_cost (cost + pa) m) as [[]|e]; cbn [bind]; [|reflexivity].
+    destruct a as [v|b|pl pr]; cbn [denote_arg rarg_ok] in *.
+    + apply small_lt in Ha. rewrite (blen_small v Ha), int_of_bytes_of_int.
+      destruct (check_cost _ m) as [[]|e]; cbn [bind]; [|reflexivity]. apply IH; exact Hl.
+    + destruct (check_cost _ m) as [[]|e]; cbn [bind]; [|reflexivity]. apply IH; exact Hl.
+    + reflexivity.
+Qed.
+
+Theorem op_subtract_nofast_eq f i m : rinput_ok i = true ->
+  op_subtract_nofast f i m = op_subtract f (denote_input i) m.
+Proof.
+  destruct i as [l t]. intros Hok. apply rinput_ok_args in Hok.
+  unfold op_subtract_nofast, op_subtract. cbn [fst].
+  destruct (arith_costs f) as [[base pa] pb].
+  rewrite (sub_loop_r_eq _ _ _ t m l Hok).
+  destruct (sub_loop _ _ _ _ _ _ _ _) as [[c tot]|e]; cbn [bind]; [|reflexivity].
+  rewrite number_bytes_spec. reflexivity.
+Qed.
+
+Lemma limbs_i64_eq z : limbs_i64 z = limbs z.
+Proof.
+  unfold limbs_i64, limbs_u64, limbs.
+  destruct (Z.eqb_spec z 0) as [->|Hz]; [reflexivity|].
+  destruct (N.eqb_spec (Z.abs_N z) 0) as [E|E]; [lia|reflexivity].
+Qed.
+
+Definition in_i64 (z : Z) : Prop := (I64_MIN <= z <= I64_MAX)%Z.
+
+Lemma sub_fast_sound ncm pa pb m : forall l, forallb rarg_ok l = true ->
+  forall cost total is_first, in_i64 total -> (is_first = true -> total = 0%Z) ->
+  match sub_fast_loop ncm pa pb l cost total is_first m with
+  | Ok (Some (c, t')) => sub_loop_r ncm pa pb l cost total is_first m = Ok (c, t') /\ in_i64 t'
+  | Ok None => True
+  | Err e => sub_loop_r ncm pa pb l cost total is_first m = Err e
+  end.
+Proof.
+  induction l as [|a l IH]; intros Hok cost total is_first Ht Hf.
+  - cbn [sub_fast_loop sub_loop_r]. split; [reflexivity|exact Ht].
+  - rewrite forallb_cons in Hok. apply andb_prop in Hok. destruct Hok as [Ha Hl].
+    cbn [sub_fast_loop sub_loop_r]. destruct a as [v|b|pl pr]; [|exact I|exact I].
+    cbn [rarg_ok] in Ha. apply small_lt in Ha. change (2 ^ 26) with 67108864 in Ha.
+    rewrite limbs_i64_eq.
+    set (x := (if ncm then N.max (limbs total) (len_for_value v) else len_for_value v) * pb).
+    unfold check_cost.
+    destruct (N.ltb_spec m (cost + pa + x)) as [C2|C2]; cbn [bind].
+    + destruct (N.ltb_spec m (cost + pa)); reflexivity.
+    + destruct (N.ltb_spec m (cost + pa)) as [C1|C1]; [lia|]. cbn [bind].
+      destruct is_first.
+      * rewrite (Hf eq_refl). change (0 + Z.of_N v)%Z with (Z.of_N v).
+        apply (IH Hl); [|discriminate]. unfold in_i64, I64_MIN, I64_MAX. lia.
+      * unfold checked_sub_i64.
+        destruct ((I64_MIN <=? total - Z.of_N v)%Z && (total - Z.of_N v <=? I64_MAX)%Z) eqn:R; [|exact I].
+        apply (IH Hl); [|discriminate]. unfold in_i64. lia.
+Qed.
+
+Theorem op_subtract_fast_nofast f i m : rinput_ok i = true ->
+  op_subtract_fast f i m = op_subtract_nofast f i m.
+Proof.
+  intros Hok. destruct i as [l t]. apply rinput_ok_args in Hok.
+  unfold op_subtract_fast. unfold op_subtract_nofast at 2. cbn [fst].
+  destruct (arith_costs f) as [[base pa] pb] eqn:EC.
+  assert (in_i64 0%Z) as H0 by (unfold in_i64, I64_MIN, I64_MAX; lia).
+  pose proof (sub_fast_sound (f_new_cost_model f) pa pb m l Hok base 0%Z true H0 (fun _ => eq_refl)) as S.
+  destruct (sub_fast_loop _ _ _ _ _ _ _ _) as [[[c t']|]|e]; cbn [bind].
+  - destruct S as [S Ht]. rewrite S. cbn [bind].
+    rewrite number_bytes_spec, i64_bytes_spec; [reflexivity|].
+    unfold in_i64, I64_MIN, I64_MAX in Ht. lia.
+  - unfold op_subtract_nofast. cbn [fst]. rewrite EC. reflexivity.
+  - rewrite S. reflexivity.
+Qed.
+
+Theorem op_subtract_fast_eq f i m : rinput_ok i = true ->
+  op_subtract_fast f i m = op_subtract f (denote_input i) m.
+Proof. intros Hok. rewrite (op_subtract_fast_nofast f i m Hok). apply op_subtract_nofast_eq. exact Hok. Qed.
